@@ -135,7 +135,7 @@ Lemma ex_evil :
 Proof. split; vm_compute; reflexivity. Qed.
 
 (* ================================================================== the builder's redirects *)
-From Wz Require Import C04.Model.
+From Wz Require Import C04.Model C04.Proofs.
 
 Lemma insert_rule_in x l y : In y (insert_rule x l) -> y = x \/ In y l.
 Proof.
@@ -365,7 +365,9 @@ Qed.
 
 (* rules of the C03 grammar: the path converter only as the trailing segment *)
 Definition seg_isolating (s : seg) : bool := match s with SLit _ => true | SDyn _ c _ _ => conv_isolating c end.
-Definition rule_wf (r : rule) : bool := seg_isolating (r_dom r) && forallb seg_isolating (r_segs r).
+Definition seg_nonempty (s : seg) : bool := match s with SLit k => negb (is_nil k) | SDyn _ _ _ _ => true end.
+Definition rule_wf (r : rule) : bool :=
+  seg_isolating (r_dom r) && forallb seg_isolating (r_segs r) && forallb seg_nonempty (r_segs r).
 
 Lemma snoc_ok_static_segs l tailp :
   forallb seg_isolating l = true -> snoc_ok tailp = true ->
@@ -383,20 +385,20 @@ Lemma branch_parts r :
   rule_wf r = true -> is_branch r = true ->
   exists sigma, rparts r = sigma ++ [PStatic _ []] /\ snoc_ok sigma = true.
 Proof.
-  unfold rule_wf. intros Hwf Hb. apply andb_prop in Hwf. destruct Hwf as [Hd Hs].
+  unfold rule_wf. intros Hwf Hb. apply andb_prop in Hwf. destruct Hwf as [Hwf _]. apply andb_prop in Hwf. destruct Hwf as [Hd Hs].
   unfold rparts, rule_parts. rewrite Hb. destruct (r_tail r) as [n|].
-  - cbn [tail_parts]. rewrite !map_app. cbn [map to_cpart].
+  - cbn [tail_parts map]. rewrite map_app. cbn [map to_cpart].
     exists (to_cpart (seg_part (r_dom r)) :: PStatic _ [] :: map to_cpart (map seg_part (r_segs r))
             ++ [PDyn _ {| d_pre := []; d_lang := LPath; d_post := []; d_final := negb (conv_isolating CPath); d_suffixed := true; d_weight := path_weight |}]).
     split; [cbn [app]; rewrite <- app_assoc; reflexivity|].
     assert (H2 : snoc_ok (PStatic _ [] :: map to_cpart (map seg_part (r_segs r)) ++ [PDyn _ {| d_pre := []; d_lang := LPath; d_post := []; d_final := negb (conv_isolating CPath); d_suffixed := true; d_weight := path_weight |}]) = true).
     { cbn [snoc_ok]. apply snoc_ok_static_segs; [exact Hs| |].
-      - cbn [snoc_ok d_final d_suffixed]. rewrite (proj2 (proj1 (andb_true_iff _ _) weights_pinned)). reflexivity.
+      - vm_compute. reflexivity.
       - intros d t H. injection H as _ <-. reflexivity. }
     destruct (r_dom r) as [k|pre c n0 post]; cbn [seg_part to_cpart]; [exact H2|].
     cbn [seg_isolating] in Hd. change (snoc_ok (PDyn _ ?d :: ?x :: ?y)) with (plain d && snoc_ok (x :: y)).
     unfold plain. cbn [d_final d_suffixed]. rewrite Hd. cbn [negb andb]. exact H2.
-  - rewrite !map_app. cbn [map to_cpart].
+  - cbn [map]. rewrite map_app. cbn [map to_cpart].
     exists (to_cpart (seg_part (r_dom r)) :: PStatic _ [] :: map to_cpart (map seg_part (r_segs r))).
     split; [reflexivity|].
     assert (H2 : snoc_ok (PStatic _ [] :: map to_cpart (map seg_part (r_segs r))) = true).
@@ -404,4 +406,162 @@ Proof.
     destruct (r_dom r) as [k|pre c n0 post]; cbn [seg_part to_cpart]; [exact H2|].
     cbn [seg_isolating] in Hd. change (snoc_ok (PDyn _ ?d :: ?x :: ?y)) with (plain d && snoc_ok (x :: y)).
     unfold plain. cbn [d_final d_suffixed]. rewrite Hd. cbn [negb andb]. exact H2.
+Qed.
+
+Lemma last_seg_not_empty l :
+  l <> [] -> forallb seg_nonempty l = true ->
+  exists X y, map to_cpart (map seg_part l) = X ++ [y] /\ y <> PStatic _ [].
+Proof.
+  intros Hn Hl. destruct (exists_last Hn) as (l' & s & ->). rewrite forallb_app in Hl. apply andb_prop in Hl.
+  destruct Hl as [_ Hs]. cbn [forallb] in Hs. rewrite andb_true_r in Hs.
+  exists (map to_cpart (map seg_part l')), (to_cpart (seg_part s)). split; [rewrite !map_app; reflexivity|].
+  destruct s as [k|pre c n post]; cbn [seg_part to_cpart]; [|discriminate].
+  cbn [seg_nonempty] in Hs. destruct k; [discriminate|]. discriminate.
+Qed.
+
+(* a rule whose parts end with the empty static part is a rule that ends with a slash *)
+Lemma slash_parts_branch r cs' :
+  rule_wf r = true -> rparts r = cs' ++ [PStatic _ []] -> is_branch r = true.
+Proof.
+  intros Hwf Hp. destruct (is_branch r) eqn:Hb; [reflexivity|]. exfalso.
+  unfold rule_wf in Hwf. apply andb_prop in Hwf. destruct Hwf as [_ Hne].
+  unfold rparts, rule_parts in Hp. rewrite Hb in Hp. cbn [map] in Hp. rewrite map_app in Hp.
+  destruct (r_tail r) as [n|] eqn:Et.
+  - cbn [tail_parts map to_cpart] in Hp.
+    rewrite !app_comm_cons in Hp. apply app_inj_tail in Hp. destruct Hp as [_ Hp]. discriminate.
+  - cbn [map] in Hp. rewrite app_nil_r in Hp. unfold is_branch in Hb. rewrite Et in Hb.
+    destruct (r_segs r) as [|s0 l0] eqn:Es; [rewrite orb_true_r in Hb; discriminate|].
+    destruct (last_seg_not_empty (s0 :: l0) ltac:(discriminate) Hne) as (X & y & HX & Hy).
+    rewrite HX in Hp. rewrite !app_comm_cons in Hp. apply app_inj_tail in Hp. destruct Hp as [_ Hp]. exact (Hy Hp).
+Qed.
+
+Lemma slash_target_admitted m r P :
+  rule_wf r = true -> admits m r P = ASlash _ -> exists v, admits m r (P ++ [[]]) = ADirect _ v.
+Proof.
+  intros Hwf Ha. unfold admits, Trie.admits in Ha.
+  assert (Hcase : exists cs' caps v, rparts r = cs' ++ [PStatic _ []] /\ cwalk cs' P = Some (caps, []) /\ rconvert r caps = Some v).
+  { unfold Trie.convert_adm in Ha.
+    destruct (cwalk (rparts r) P) as [[caps lo]|] eqn:Ew.
+    - destruct lo as [|l0 lo].
+      + destruct (rconvert r caps); discriminate.
+      + destruct l0 as [|x l0]; [destruct lo as [|l1 lo]|].
+        * destruct (rstrict m r); [discriminate|]. destruct (rconvert r caps); discriminate.
+        * destruct (Trie.strip_last_empty dpart (rparts r)) as [cs'|] eqn:Es; [|discriminate].
+          destruct (cwalk cs' P) as [[caps2 lo2]|] eqn:Ew2; [|discriminate]. destruct lo2; [|discriminate].
+          destruct (rconvert r caps2) as [v|] eqn:Ec; [|discriminate].
+          apply (strip_last_empty_some dpart) in Es. exists cs', caps2, v. auto.
+        * destruct (Trie.strip_last_empty dpart (rparts r)) as [cs'|] eqn:Es; [|discriminate].
+          destruct (cwalk cs' P) as [[caps2 lo2]|] eqn:Ew2; [|discriminate]. destruct lo2; [|discriminate].
+          destruct (rconvert r caps2) as [v|] eqn:Ec; [|discriminate].
+          apply (strip_last_empty_some dpart) in Es. exists cs', caps2, v. auto.
+    - destruct (Trie.strip_last_empty dpart (rparts r)) as [cs'|] eqn:Es; [|discriminate].
+      destruct (cwalk cs' P) as [[caps2 lo2]|] eqn:Ew2; [|discriminate]. destruct lo2; [|discriminate].
+      destruct (rconvert r caps2) as [v|] eqn:Ec; [|discriminate].
+      apply (strip_last_empty_some dpart) in Es. exists cs', caps2, v. auto. }
+  destruct Hcase as (cs' & caps & v & Hp & Hw & Hc).
+  pose proof (slash_parts_branch r cs' Hwf Hp) as Hb.
+  destruct (branch_parts r Hwf Hb) as (sigma & Hp2 & Hok). rewrite Hp2 in Hp. apply app_inj_tail in Hp. destruct Hp as [<- _].
+  exists v. unfold admits, Trie.admits, Trie.convert_adm.
+  rewrite Hp2, (walk_app dpart pmatch), (walk_snoc _ _ _ Hok Hw). cbn [Trie.walk list_eqb]. rewrite app_nil_r, Hc. reflexivity.
+Qed.
+
+(* the target of a slash / merged-slash redirect is admitted directly by the rule that caused it *)
+Theorem path_redirect_target m domain path meth ws p' :
+  (forall r, In r (m_rules m) -> rule_wf r = true) ->
+  path_reason m domain path meth ws p' ->
+  exists r v, In r (m_rules m) /\ admits m r (domain :: split_slash p') = ADirect _ v
+              /\ rmethod_ok r meth = true /\ r_websocket r = ws.
+Proof.
+  intros Hwf [r Hin Ha Hm Hw ->|r Hmg Hin Ha Hm Hw ->|r v Hmg Hin Hrm Ha Hm Hw ->].
+  - destruct (slash_target_admitted m r _ (Hwf r Hin) Ha) as (v & Hv). exists r, v.
+    rewrite split_slash_snoc. cbn [app] in Hv. auto.
+  - destruct (slash_target_admitted m r _ (Hwf r Hin) Ha) as (v & Hv). exists r, v.
+    rewrite split_slash_snoc. cbn [app] in Hv. auto.
+  - exists r, v. auto.
+Qed.
+
+(* the request a client sends for the redirect URL addresses the target path: stripping the root
+   and percent-decoding gives the redirect's path back *)
+Lemma quote_cons_slash safe r : mem SLASH safe = true -> quote safe (SLASH :: r) = SLASH :: quote safe r.
+Proof.
+  intro H. unfold quote, utf8_encode. cbn [flat_map]. change (enc1 SLASH) with [SLASH]. cbn [flat_map app].
+  unfold quote_byte at 1. change (SLASH <? 128) with true. cbn [andb]. rewrite H, orb_true_r. reflexivity.
+Qed.
+
+Lemma quote_head_not_slash safe c r : valid_cp c = true -> (c =? SLASH) = false ->
+  starts_with [SLASH] (quote safe (c :: r)) = false.
+Proof.
+  intros Hv Hc. unfold quote, utf8_encode. cbn [flat_map]. unfold enc1.
+  destruct (c <? 128) eqn:E1.
+  - cbn [flat_map app]. unfold quote_byte at 1. destruct ((c <? 128) && (always_safe c || mem c safe)); cbn [app starts_with].
+    + rewrite N.eqb_sym, Hc. reflexivity.
+    + reflexivity.
+  - assert (Hq : forall b rest, 128 <= b -> starts_with [SLASH] (quote_byte safe b ++ rest) = false).
+    { intros b rest Hb. unfold quote_byte. replace (b <? 128) with false by (symmetry; apply N.ltb_ge; exact Hb). reflexivity. }
+    apply N.ltb_ge in E1.
+    destruct (c <? 2048); [cbn [app flat_map]; apply Hq; lia|].
+    destruct (c <? 65536); cbn [app flat_map]; apply Hq; lia.
+Qed.
+
+Lemma lstrip_quote safe s :
+  mem SLASH safe = true -> valid_text s = true -> lstrip_slash (quote safe s) = quote safe (lstrip_slash s).
+Proof.
+  intros Hs. induction s as [|c s IH]; intro Hv; [reflexivity|].
+  cbn [valid_text forallb] in Hv. apply andb_prop in Hv. destruct Hv as [Hc Hv].
+  unfold lstrip_slash. cbn [drop_while]. destruct (SLASH =? c) eqn:E.
+  - apply N.eqb_eq in E. subst c. rewrite quote_cons_slash by exact Hs. cbn [drop_while]. rewrite N.eqb_refl. exact (IH Hv).
+  - rewrite N.eqb_sym in E. pose proof (quote_head_not_slash safe c s Hc E) as Hq.
+    destruct (quote safe (c :: s)) as [|x q]; [reflexivity|]. cbn [starts_with] in Hq. cbn [drop_while].
+    rewrite andb_true_r in Hq. rewrite Hq. reflexivity.
+Qed.
+
+Lemma valid_text_drop_while p s : valid_text s = true -> valid_text (drop_while p s) = true.
+Proof. unfold valid_text. apply forallb_drop_while. Qed.
+
+Lemma safe_redirect_slash : mem SLASH safe_redirect = true /\ mem PERCENT safe_redirect = false.
+Proof. split; vm_compute; reflexivity. Qed.
+
+Theorem redirect_url_addresses_target m a p' :
+  has (eff_scheme a) uses_netloc = true -> valid_text p' = true ->
+  exists rest, make_redirect_url m a (quote safe_redirect p') None = url_root m a None ++ rest ++ query_suffix a
+               /\ unquote rest = lstrip_slash p'.
+Proof.
+  intros Hs Hv. destruct safe_redirect_slash as [H1 H2].
+  exists (lstrip_slash (quote safe_redirect p')). split; [apply make_redirect_url_shape; exact Hs|].
+  rewrite (lstrip_quote _ _ H1 Hv). apply C04.Proofs.unquote_quote; [exact H2|]. apply valid_text_drop_while. exact Hv.
+Qed.
+
+(* following a slash / merged-slash redirect: the rule that caused it admits the target path directly
+   for the same method and protocol, so the follow-up request is not refused *)
+Theorem converges_partial m a p me u :
+  (forall r, In r (m_rules m) -> rule_wf r = true) -> uniform_merge m ->
+  router_match m a p me = RedirectTo u ->
+  (exists p', u = make_redirect_url m a (quote safe_redirect p') None
+     /\ (exists r v, In r (m_rules m) /\ admits m r (domain_part m a :: split_slash p') = ADirect _ v
+                     /\ rmethod_ok r (upper me) = true /\ r_websocket r = a_websocket a)
+     /\ forall p2, path_part p2 = p' ->
+          (exists r' vs, router_match m a p2 me = Match r' vs) \/ (exists u', router_match m a p2 me = RedirectTo u')
+          \/ (exists e, router_match m a p2 me = Raised e))
+  \/ (exists r v, In r (m_rules m) /\ admits m r (request_parts m a p) = ADirect _ v /\ m_redirect_defaults m = true
+        /\ (r_alias r = true /\ alias_redirect_url m a (upper me) r (dict_update v (r_defaults r)) = BOk u
+            \/ get_default_redirect m a (upper me) r (dict_update v (r_defaults r)) = BOk (Some u))).
+Proof.
+  intros Hwf Hum H. unfold router_match in H. apply redirect_sound in H.
+  destruct H as [p' Hp ->|r v Hin Ha Hm Hw Hrd Hb].
+  - left. exists p'. split; [reflexivity|].
+    destruct (path_redirect_target _ _ _ _ _ _ Hwf Hp) as (r & v & Hin & Ha & Hm & Hw).
+    split; [exists r, v; auto|]. intros p2 Hp2. unfold router_match.
+    apply (served_never_refused router_hooks m a p2 me r Hum Hin). left.
+    unfold request_parts. rewrite Hp2. eapply serves_of_direct; eassumption.
+  - right. exists r, v. auto.
+Qed.
+
+Lemma ex_converges_hyps :
+  (forall r, In r (m_rules (mk_map [ex_r3])) -> rule_wf r = true) /\ uniform_merge (mk_map [ex_r3])
+  /\ exists u, router_match (mk_map [ex_r3]) ex_adapter_app [47; 47; 101; 118; 105; 108; 46; 99; 111; 109; 47; 51] GET = RedirectTo u.
+Proof.
+  split; [|split].
+  - intros r [<-|[]]. vm_compute. reflexivity.
+  - intros r [<-|[]]. reflexivity.
+  - eexists. vm_compute. reflexivity.
 Qed.
